@@ -33,6 +33,11 @@ RULE = ('channel catalogue: one template per way DTML reads an attribute or '
         'in the values behind refused reads.  Non-trivial there: the guard '
         'actually refused >= 1 read during the rendering; distinct by the '
         'hash of (source, policy, client).')
+RULE += (
+         'Also: error messages are part of the outcome (scanned for '
+         'refused data, compared between the builds), try channels '
+         'rendering error_value, refused data in id / repr of the '
+         'objects. ')
 ASSUMPTIONS = [
     'the guard is the documented extension point: guarded_getattr / '
     'guarded_getitem supplied by the template class',
